@@ -135,7 +135,7 @@ func genRangeMs(r *gen.Rand, subsecond bool) int64 {
 	return int64(gen.Pick(r, []int{30000, 45000, 60000, 60000, 90000, 120000, 300000, 300000, 600000, 17000}))
 }
 
-func genRangeFn(r *gen.Rand) exprCase {
+func genRangeFn(r *gen.Rand, top bool) exprCase {
 	fn := gen.Pick(r, modelledFns)
 	if r.Chance(1, 8) {
 		fn = gen.Pick(r, otherFns)
@@ -148,7 +148,7 @@ func genRangeFn(r *gen.Rand) exprCase {
 		}
 	}
 	sel := genSel(r, metric)
-	rg := genRangeMs(r, r.Chance(1, 10))
+	rg := genRangeMs(r, top && r.Chance(1, 8)) // sub-second ranges only as the outermost call (finding signature)
 	e := exprCase{Form: "rangefn", Sel: sel, Fn: fn, RangeMs: rg, Modelled: isModelledFn(fn)}
 	e.Expr = fmt.Sprintf("%s(%s)", fn, sel.text(rg))
 	return e
@@ -164,7 +164,7 @@ func genVecOperand(r *gen.Rand) exprCase {
 	if r.Chance(1, 2) {
 		return genSelector(r)
 	}
-	return genRangeFn(r)
+	return genRangeFn(r, false)
 }
 
 func genAgg(r *gen.Rand) exprCase {
@@ -176,9 +176,6 @@ func genAgg(r *gen.Rand) exprCase {
 	seen := map[string]bool{}
 	for len(e.Grouping) < n {
 		l := gen.Pick(r, all[:5])
-		if r.Chance(1, 20) {
-			l = "__name__"
-		}
 		if !seen[l] {
 			seen[l] = true
 			e.Grouping = append(e.Grouping, l)
@@ -284,7 +281,7 @@ func genExpr(r *gen.Rand) exprCase {
 	case 0, 1:
 		return genSelector(r)
 	case 2, 3, 4, 5:
-		return genRangeFn(r)
+		return genRangeFn(r, true)
 	case 6, 7:
 		return genAgg(r)
 	default:
